@@ -14,7 +14,7 @@ import isogen
 import readcheck
 
 LEVEL = "proof"
-CONE = ["Props/C07.v", "Base/Cost.v", "Proofs/CostLoop.v", "Proofs/CostLeaf.v", "Model/Loop.v"]
+CONE = ["Props/C07.v", "Base/Cost.v", "Proofs/CostProps.v", "Proofs/CostOpen.v", "Proofs/CostSample.v", "Proofs/CostLoop.v", "Proofs/CostCont.v", "Proofs/CostLeaf.v", "Proofs/CostLeaf2.v", "Proofs/CostLeaf3.v", "Proofs/CostBoxes.v", "Proofs/CostMp4a.v", "Proofs/CostMeta.v", "Proofs/CostTree.v"]
 
 
 def budget_open(n):
@@ -41,6 +41,10 @@ def families(n):
            "stts_split": lambda j: True}]
     r, _, _ = isogen.build_movie(tr)
     out.append(("bigtable", bytes(r.data)))
+    # constant sample size, one huge chunk: lookups deep into the chunk must not iterate over the samples
+    tb = {"stsc": [(1, 0xFFFFFFFF, 1)], "stsz": (1, 0xFFFFFFFF, []), "stts": [(0xFFFFFFFF, 1)], "ctts": None, "stss": None, "stco": [64]}
+    tr = {"id": 1, "kind": "avc", "ts": 1000, "tables": tb, "duration": 0}
+    out.append(("fixed_size_huge_chunk", isogen.render([isogen.ftyp(), isogen.Box("moov", [isogen.mvhd(), isogen.trak_of(tr)]), isogen.Box("mdat", [isogen.Raw(b"x" * min(n, 4096))])]).data))
     # 64-bit headers with sizes near the file length
     out.append(("large_hdr", isogen.render([isogen.ftyp()] + [B("free", [isogen.Raw(b"\0" * 8)], large=True)] * (k // 3)).data))
     # k sample entries whose esds descriptors claim to extend over z bytes of zero padding behind the moov box
